@@ -421,7 +421,9 @@ def sethandle_cases(ctx):
             for k in sorted({0, n // 2, max(0, n - 1), n}):
                 out.append(_close(["nds %d" % t, "seth 0 %s" % data, "shorten 0 %d" % k, "val 0", "ser 0 40", "copy 0", "ssize 1"]))
             out.append(_close(["nds %d" % t, "seth 0 %s" % data, "nia", "push 1 0", "shorten 0 %d" % (n // 2), "copy 1", "ser 2 40"]))
-            out.append(_close(["nds %d" % t, "seth 0 %s" % data, "nis %d" % t, "chunk 1 0", "shorten 0 %d" % max(0, n - 1), "ser 1 40", "copy 1"]))
+            out.append(_close(["nds %d" % t, "seth 0 %s" % data, "nis %d" % t, "chunk 1 0", "shorten 0 %d" % max(0, n - 1), "ssize 1", "ser 1 40", "salloc 1", "copy 1", "ssize 2"]))
+            # the chunk gets its payload only AFTER it was attached (anything cached at attach time is stale)
+            out.append(_close(["nds %d" % t, "nis %d" % t, "chunk 1 0", "ssize 1", "seth 0 %s" % data, "ssize 1", "ser 1 40", "salloc 1", "copy 1", "ssize 2"]))
     return out
 
 
